@@ -111,8 +111,7 @@ def handle (line : String) : String :=
   | "schema" =>
     match schemaOf (o.str "t") with
     | some s =>
-      if s.fields.isEmpty then "panic" else
-      let tags := if s.tags.isEmpty then "-" else ",".intercalate (s.tags.map fun t => toString t.toNat)
+      let tags := if s.typeTags.isEmpty then "-" else ",".intercalate (s.typeTags.map fun t => toString t.toNat)
       s!"tags={tags} kinds={",".intercalate (s.fields.map showKind)}"
     | none => "bad-op"
   | _ => "bad-op"
